@@ -1995,3 +1995,76 @@ Proof.
   rewrite <- Hn in Hi. cbn [fst snd run_proc] in Hi. symmetry. exact Hi.
 Qed.
 
+
+(* ================================================================== *)
+(* handle(): the wrapped handler is called exactly once (never for LOCAL). *)
+
+Lemma run_h_lift : forall p k h s,
+  run_h (lift p k) h s = let '(r, s1) := run_proc p s in run_h (k r) h s1.
+Proof.
+  induction p as [r|n f IH]; intros k h s.
+  - reflexivity.
+  - cbn [lift run_h run_proc]. destruct (recv_into s n) as [chunk s']. apply IH.
+Qed.
+
+Lemma run_h_call_once : forall a h s,
+  run_h (call_once a) h s = let '(o, s2) := h a s in (end_of o, s2, [(a, s)]).
+Proof. intros a h s. unfold call_once. cbn [run_h]. destruct (h a s) as [o s2]. reflexivity. Qed.
+
+Section Handler.
+  Variable pton6 : bytes -> option bytes.
+  Variable ntop6 : bytes -> bytes.
+  Variable h : handler.
+
+  Lemma handle_v1_once : forall s,
+    run_h (p_handle_v1 pton6 ntop6) h s = after_parse h (handle_v1 pton6 ntop6 s).
+  Proof.
+    intros s. unfold p_handle_v1, handle_v1. rewrite run_h_lift, run_p_process_v1.
+    destruct (process_pp_v1 pton6 ntop6 [] s) as [[[src dst]|e|] s1]; cbn [p_finish_v1 after_parse].
+    - apply run_h_call_once.
+    - destruct e; first [reflexivity | apply run_h_call_once].
+    - reflexivity.
+  Qed.
+
+  Lemma finish_once : forall r s1,
+    run_h (p_finish r) h s1 = after_parse h (finish (r, s1)).
+  Proof.
+    intros [[src dst]|e|] s1; cbn [p_finish finish after_parse].
+    - apply run_h_call_once.
+    - destruct e; first [reflexivity | apply run_h_call_once].
+    - reflexivity.
+  Qed.
+
+  Lemma handle_v2_once : forall s,
+    run_h (p_handle_v2 ntop6) h s = after_parse h (handle_v2 ntop6 s).
+  Proof.
+    intros s. unfold p_handle_v2, handle_v2. rewrite run_h_lift, run_p_process_v2.
+    destruct (process_pp_v2 ntop6 [] s) as [r s1]. apply finish_once.
+  Qed.
+
+  Lemma handle_auto_once : forall s,
+    run_h (p_handle_auto pton6 ntop6) h s = after_parse h (handle_auto pton6 ntop6 s).
+  Proof.
+    intros s. unfold p_handle_auto, handle_auto. rewrite run_h_lift, run_p_process_auto.
+    destruct (process_auto pton6 ntop6 s) as [r s1]. apply finish_once.
+  Qed.
+End Handler.
+
+(* with C18_total: exactly one call, with the parser's address, on the socket
+   as the parser left it, and handle() ends as the wrapped handler ended;
+   no call (and a normal return) exactly for LOCAL *)
+Definition called_once (h : handler) (x : hres * sock) (out : hend * sock * list (addr * sock)) : Prop :=
+  match handler_arg (fst x) with
+  | Some a => snd out = [(a, snd x)] /\ (fst (fst out), snd (fst out)) = (end_of (fst (h a (snd x))), snd (h a (snd x)))
+  | None => fst x = HLocal /\ out = (HReturned, snd x, [])
+  end.
+
+Lemma after_parse_once : forall h x, settled (fst x) -> called_once h x (after_parse h x).
+Proof.
+  intros h [hr s1] Hs. unfold called_once. destruct hr as [a|w| |e|]; cbn [fst snd handler_arg after_parse settled] in *.
+  - destruct (h a s1) as [o s2]. split; reflexivity.
+  - destruct (h ANone s1) as [o s2]. split; reflexivity.
+  - split; reflexivity.
+  - contradiction.
+  - contradiction.
+Qed.
